@@ -7,8 +7,8 @@ variable {R T C : Type}
 
 /-- the steps of the `atomic` discipline: they never touch the file itself except by `rename` -/
 def SlotOp.isAtomic : SlotOp C → Bool
-  | .tmpOpen | .tmpWrite | .rename _ => true
-  | _ => false
+  | .trunc | .write _ => false
+  | _ => true
 
 /-- the contents a list of steps installs, in order -/
 def contents : List (SlotOp C) → List C
@@ -46,7 +46,7 @@ theorem Slot.applyAll_saveOps_atomic (s : Slot C) (c : C) :
 theorem saveOps_atomic_isAtomic (c : C) : ∀ op ∈ saveOps .atomic c, op.isAtomic = true := by
   intro op h
   simp only [saveOps, List.mem_cons, List.not_mem_nil, or_false] at h
-  rcases h with rfl | rfl | rfl <;> rfl
+  rcases h with rfl | rfl | rfl | rfl | rfl | rfl <;> rfl
 
 /-- **Atomic steps never damage the file**: after any list of atomic steps the file
     is what it was, or the content of one of the renames of the list. -/
@@ -61,18 +61,14 @@ theorem Slot.atomic_main (s : Slot C) (ops : List (SlotOp C)) (h : ∀ op ∈ op
     cases op with
     | trunc => simp [SlotOp.isAtomic] at hop
     | write c => simp [SlotOp.isAtomic] at hop
-    | tmpOpen =>
-      rcases ih' with h1 | ⟨c, hc, h1⟩
-      · left; rw [h1]; rfl
-      · right; exact ⟨c, by simpa [contents] using hc, h1⟩
-    | tmpWrite =>
-      rcases ih' with h1 | ⟨c, hc, h1⟩
-      · left; rw [h1]; rfl
-      · right; exact ⟨c, by simpa [contents] using hc, h1⟩
     | rename c0 =>
       rcases ih' with h1 | ⟨c, hc, h1⟩
       · right; exact ⟨c0, by simp [contents], by rw [h1]; rfl⟩
       · right; exact ⟨c, by simp [contents, hc], h1⟩
+    | _ =>
+      rcases ih' with h1 | ⟨c, hc, h1⟩
+      · left; rw [h1]; rfl
+      · right; exact ⟨c, by simpa [contents] using hc, h1⟩
 
 /-- in any discipline: the file is what it was, torn, or one of the written contents -/
 theorem Slot.any_main (s : Slot C) (ops : List (SlotOp C)) :
@@ -94,21 +90,16 @@ theorem Slot.any_main (s : Slot C) (ops : List (SlotOp C)) :
       · right; right; exact ⟨c0, by simp [contents], by rw [h1]; rfl⟩
       · right; left; exact h1
       · right; right; exact ⟨c, by simp [contents, hc], h1⟩
-    | tmpOpen =>
-      rcases ih' with h1 | h1 | ⟨c, hc, h1⟩
-      · left; rw [h1]; rfl
-      · right; left; exact h1
-      · right; right; exact ⟨c, by simpa [contents] using hc, h1⟩
-    | tmpWrite =>
-      rcases ih' with h1 | h1 | ⟨c, hc, h1⟩
-      · left; rw [h1]; rfl
-      · right; left; exact h1
-      · right; right; exact ⟨c, by simpa [contents] using hc, h1⟩
     | rename c0 =>
       rcases ih' with h1 | h1 | ⟨c, hc, h1⟩
       · right; right; exact ⟨c0, by simp [contents], by rw [h1]; rfl⟩
       · right; left; exact h1
       · right; right; exact ⟨c, by simp [contents, hc], h1⟩
+    | _ =>
+      rcases ih' with h1 | h1 | ⟨c, hc, h1⟩
+      · left; rw [h1]; rfl
+      · right; left; exact h1
+      · right; right; exact ⟨c, by simpa [contents] using hc, h1⟩
 
 /-! ### events -/
 
